@@ -9,6 +9,8 @@ package rcall
 import (
 	"fmt"
 	"reflect"
+	"runtime/debug"
+	"sync"
 )
 
 // Call calls fn with args (see the package comment) and returns its results.
@@ -36,12 +38,55 @@ func Call(fn any, args ...any) []any {
 			in[i] = v.Convert(t.In(i))
 		}
 	}
-	outs := f.Call(in)
+	var outs []reflect.Value
+	func() {
+		defer func() {
+			/* The constructor itself crashed: its results are zero values
+			and, if the last one is an error, a *Panicked (also noted in
+			Panics, for checks to which a crash is a finding). */
+			p := recover()
+			if nil == p {
+				return
+			}
+			perr := &Panicked{Value: fmt.Sprint(p), Stack: string(debug.Stack())}
+			mu.Lock()
+			Panics = append(Panics, perr)
+			mu.Unlock()
+			outs = make([]reflect.Value, t.NumOut())
+			for i := range outs {
+				outs[i] = reflect.Zero(t.Out(i))
+			}
+			if k := len(outs) - 1; k >= 0 && t.Out(k) == reflect.TypeOf((*error)(nil)).Elem() {
+				outs[k] = reflect.ValueOf(error(perr))
+			}
+		}()
+		outs = f.Call(in)
+	}()
 	res := make([]any, len(outs))
 	for i, o := range outs {
 		res[i] = o.Interface()
 	}
 	return res
+}
+
+// Panicked is the error that stands for a panic of the called function.
+type Panicked struct{ Value, Stack string }
+
+func (p *Panicked) Error() string { return "the program panicked: " + p.Value }
+
+var (
+	mu sync.Mutex
+	// Panics lists every panic Call has turned into an error.
+	Panics []*Panicked
+)
+
+// TakePanics returns and forgets what Panics holds.
+func TakePanics() []*Panicked {
+	mu.Lock()
+	defer mu.Unlock()
+	ps := Panics
+	Panics = nil
+	return ps
 }
 
 // Err returns the last result of a call as an error (nil if it is not one).
